@@ -18,6 +18,7 @@ EXPLANATION = (
     'Also decided: close() really closes the socket; tracked resources are per connection. '
     "Also decided (round 7): Calls on user objects (a stream entry's iterator) before the disconnect hook count as code that may raise; current_context.client is this request's connection before any user code of the request runs (resources are filed under it). "
     'Also decided (round 9): The worker-loop obligations (slot cleared before hand-back, event protocol, handed back only while alive) are shared from C05/C18. '
+    "Also decided (round 11): _clientDisconnect removes streams with pop(id, default) (a concurrent removal cannot make it skip the user's hook). "
     'Also decided (round 10): The clean-up loop of SocketConnection.close iterates a snapshot of the tracked resources (a resource may untrack itself while being closed). '
     "Not decided: counts observed at run time, byte offsets."
 )
